@@ -184,6 +184,77 @@ Section OffsetSpec.
     | TBetween l r => TokAt q l off /\ TokAt q r off /\ true_off g l + len_at g l = off /\ true_off g r = off
     end.
 
+  (* ---- completeness: EVERY non-empty token below q that touches the offset is in the answer ---- *)
+  Definition tao_list (x : tao_res) : list pos :=
+    match x with TNone => [] | TSingle t => [t] | TBetween l r => [l; r] end.
+  Definition Complete (q : pos) (off : N) (x : tao_res) : Prop := forall t, TokAt q t off -> In t (tao_list x).
+
+  Lemma sumN_firstn_le : forall (l : list gelem) i c,
+    nth_error l i = Some c -> sumN (map glen (firstn i l)) + glen c <= sumN (map glen l).
+  Proof.
+    induction l as [|a l IH]; intros [|i] c E; cbn [nth_error firstn map sumN] in *; try discriminate.
+    - injection E as ->. lia.
+    - specialize (IH i c E). lia.
+  Qed.
+
+  Lemma kids_some_node q i c : nth_error (kids g q) i = Some c -> is_node_at g q = true /\ subr g q <> None.
+  Proof.
+    unfold kids, is_node_at. destruct (subr g q) as [e|]; [|destruct i; discriminate].
+    destruct e; cbn [gchildren is_node]; [destruct i; discriminate|]. intros _. split; [reflexivity|discriminate].
+  Qed.
+
+  Lemma child_range i q c : nth_error (kids g q) i = Some c ->
+    true_off g q <= true_off g (i :: q) /\ true_off g (i :: q) + glen c <= true_off g q + len_at g q.
+  Proof.
+    intros E. cbn [true_off]. destruct (kids_some_node q i c E) as [Nd _].
+    rewrite (len_at_sum g Hlen q Nd). pose proof (sumN_firstn_le _ _ _ E). lia.
+  Qed.
+
+  Lemma subr_prefix : forall l q, subr g (l ++ q) <> None -> subr g q <> None.
+  Proof.
+    induction l as [|a l IH]; intros q S; cbn [app] in S; [exact S|].
+    apply IH. rewrite kids_nth in S. destruct (nth_error (kids g (l ++ q)) a) as [c|] eqn:E; [|congruence].
+    apply (kids_some_node _ _ _ E).
+  Qed.
+
+  Lemma below_range : forall l q, subr g (l ++ q) <> None ->
+    true_off g q <= true_off g (l ++ q) /\ true_off g (l ++ q) + len_at g (l ++ q) <= true_off g q + len_at g q.
+  Proof.
+    induction l as [|a l IH]; intros q S; cbn [app] in *; [lia|].
+    rewrite kids_nth in S. destruct (nth_error (kids g (l ++ q)) a) as [c|] eqn:E; [|congruence].
+    destruct (kids_some_node _ _ _ E) as [_ S'].
+    destruct (IH q S') as [A B]. destruct (child_range a (l ++ q) c E) as [C D].
+    rewrite len_at_cons, E. lia.
+  Qed.
+
+  (* a token touching the offset below a node lies in a child that passes the filter *)
+  Lemma tok_in_child p t off : TokAt p t off -> is_node_at g p = true ->
+    exists i c, nth_error (kids g p) i = Some c /\ TokAt (i :: p) t off /\ hit (true_off g (i :: p)) (glen c) off = true.
+  Proof.
+    intros ([l ->] & Tk & S & Pos & R) Nd.
+    destruct l as [|a0 l0] using rev_ind; [cbn [app] in Tk; congruence|]. clear IHl0.
+    rewrite <- app_assoc in *. cbn [app] in *.
+    assert (Sc : subr g (a0 :: p) <> None) by (eapply subr_prefix; exact S).
+    rewrite kids_nth in Sc. destruct (nth_error (kids g p) a0) as [c|] eqn:E; [|congruence].
+    exists a0, c. split; [exact E|].
+    destruct (below_range l0 (a0 :: p) S) as [A B]. rewrite len_at_cons, E in B.
+    split.
+    - split; [exists l0; reflexivity|]. repeat split; auto; lia.
+    - unfold hit. rewrite !andb_true_iff, negb_true_iff, N.eqb_neq, !N.leb_le. lia.
+  Qed.
+
+  Lemma hit_children_in : forall l idx t off k c,
+    nth_error l k = Some c -> hit (t + sumN (map glen (firstn k l))) (glen c) off = true ->
+    In (c, (idx + k)%nat, t + sumN (map glen (firstn k l))) (hit_children l idx t off).
+  Proof.
+    induction l as [|a r IH]; intros idx t off [|k] c E H; cbn [nth_error firstn map sumN hit_children] in *; try discriminate.
+    - injection E as ->. rewrite N.add_0_r in *. rewrite H, Nat.add_0_r. left. reflexivity.
+    - specialize (IH (S idx) (t + glen a) off k c E).
+      replace (t + (glen a + sumN (map glen (firstn k r)))) with (t + glen a + sumN (map glen (firstn k r))) in * by lia.
+      specialize (IH H). replace (idx + S k)%nat with (S idx + k)%nat by lia.
+      destruct (hit t (glen a) off); [right|]; exact IH.
+  Qed.
+
   (* at the left edge of a non-empty element the answer is the single token STARTING there, at the
      right edge the single token ENDING there *)
   Definition EdgeOk (s len off : N) (x : tao_res) : Prop :=
@@ -193,7 +264,7 @@ Section OffsetSpec.
   Definition TaoSpec (rec : gelem -> pos -> N -> rstate -> res tao_res * rstate) (c : gelem) : Prop :=
     forall q off rs, subr g q = Some c -> Inv rs -> Known rs q -> 0 < glen c ->
       true_off g q <= off <= true_off g q + glen c ->
-      exists x, fst (rec c q off rs) = Ok x /\ TaoGood q off x /\ EdgeOk (true_off g q) (glen c) off x.
+      exists x, fst (rec c q off rs) = Ok x /\ TaoGood q off x /\ EdgeOk (true_off g q) (glen c) off x /\ Complete q off x.
 
   Lemma TokAt_up i p t off : TokAt (i :: p) t off -> TokAt p t off.
   Proof.
@@ -206,7 +277,7 @@ Section OffsetSpec.
   Qed.
 
   Definition ResGood (p : pos) (off : N) (r : res tao_res) (h : gelem * nat * N) : Prop :=
-    exists x, r = Ok x /\ TaoGood p off x /\ EdgeOk (snd h) (glen (fst (fst h))) off x.
+    exists x, r = Ok x /\ TaoGood p off x /\ EdgeOk (snd h) (glen (fst (fst h))) off x /\ Complete (snd (fst h) :: p) off x.
 
   Lemma tao_hit_true rs1 p off c i :
     Inv rs1 -> Known rs1 (i :: p) -> tao_hit rs1 p off c i = hit (true_off g (i :: p)) (glen c) off.
@@ -245,13 +316,13 @@ Section OffsetSpec.
       { rewrite kids_nth, E, nth_error_app2, Nat.sub_diag; [reflexivity|lia]. }
       unfold hit in Hh. rewrite !andb_true_iff, negb_true_iff, N.eqb_neq, !N.leb_le in Hh.
       destruct Hh as [[NZ L1] L2].
-      destruct (Fc (length pre :: p) off rs S1 I K0) as (x & Ex & Gx & Edge); [lia|rewrite <- Eo; lia|].
+      destruct (Fc (length pre :: p) off rs S1 I K0) as (x & Ex & Gx & Edge & Cx); [lia|rewrite <- Eo; lia|].
       destruct (Gc (length pre :: p) off rs S1 I K0) as (I2 & L2' & _).
       destruct (rec c (length pre :: p) off rs) as [x0 rs']. cbn [fst snd] in *. subst x0.
       specialize (Step' rs' L2' I2).
       destruct (tao_loop rec p off rs1 r (S (length pre)) rs') as [xs rs'']. cbn [fst] in *.
       constructor; [|exact Step'].
-      exists x. split; [reflexivity|]. split; [apply TaoGood_up in Gx; exact Gx|]. cbn [fst snd]. rewrite Eo. exact Edge.
+      exists x. split; [reflexivity|]. split; [apply TaoGood_up in Gx; exact Gx|]. cbn [fst snd]. rewrite Eo. split; [exact Edge|exact Cx].
     - apply Step'; [apply Le_refl|exact I].
   Qed.
 
@@ -282,7 +353,13 @@ Section OffsetSpec.
       exists (TSingle p). split; [reflexivity|]. split.
       + cbn. unfold TokAt. split; [exists []; reflexivity|]. unfold is_node_at, len_at. rewrite S. cbn [is_node glen].
         split; [reflexivity|]. split; [discriminate|]. lia.
-      + unfold EdgeOk. split; intros Ee; exists p; (split; [reflexivity|try (unfold len_at; rewrite S; cbn [glen]); lia]).
+      + split.
+        * unfold EdgeOk. split; intros Ee; exists p; (split; [reflexivity|try (unfold len_at; rewrite S; cbn [glen]); lia]).
+        * (* nothing lies below a token *)
+          intros t ([l ->] & _ & St & _). cbn [tao_list]. left.
+          destruct l as [|a0 l0] using rev_ind; [reflexivity|]. exfalso.
+          rewrite <- app_assoc in St. cbn [app] in St. apply subr_prefix in St. rewrite kids_nth in St.
+          unfold kids in St. rewrite S in St. cbn [gchildren] in St. destruct a0; apply St; reflexivity.
     - rewrite (offset_known g rs p I K).
       destruct (N.leb_spec (true_off g p) off); [|lia]. destruct (N.leb_spec off (true_off g p + len)); [|lia]. cbn [andb negb].
       destruct (N.eqb_spec len 0); [lia|].
@@ -303,19 +380,29 @@ Section OffsetSpec.
       + rewrite Eh in Ch, Ls. cbn [length] in Ch. rewrite Ch.
         destruct (tao_loop tao_of p off rs1 cs 0 rs1) as [results rs2]. cbn [fst] in *.
         apply Forall2_one in Ls. destruct Ls as (r0 & -> & R0).
-        destruct R0 as (x & -> & Gx & [Edge1 Edge2]). cbn [fst snd] in Edge1, Edge2.
+        destruct R0 as (x & -> & Gx & [Edge1 Edge2] & Cx). cbn [fst snd] in Edge1, Edge2, Cx.
         exists x. split; [destruct x; reflexivity|]. split; [exact Gx|].
-        split; intros Ee.
+        split; [split; intros Ee|].
         * apply Edge1. symmetry. apply Ea. exact Ee.
         * apply Edge2. try rewrite El in Ee. symmetry. apply Eb. exact Ee.
+        * intros t Ht. destruct (tok_in_child p t off Ht Nd) as (i' & c' & Ec' & Ht' & Hh').
+          rewrite Ek in Ec'. pose proof (hit_children_in cs 0%nat (true_off g p) off i' c' Ec') as Hin.
+          cbn [true_off] in Hh'. rewrite Ek in Hh'. specialize (Hin Hh'). rewrite Eh in Hin.
+          destruct Hin as [Hin|[]]. injection Hin as _ <- _. cbn [Nat.add] in Ht'. apply Cx. exact Ht'.
       + rewrite Eh in Ch, Ls. cbn [length] in Ch. rewrite Ch.
         destruct (tao_loop tao_of p off rs1 cs 0 rs1) as [results rs2]. cbn [fst] in *.
         apply Forall2_two in Ls. destruct Ls as (r1 & r2 & -> & R1 & R2).
-        destruct R1 as (x1 & -> & G1 & [_ EdgeR]). destruct R2 as (x2 & -> & G2 & [EdgeL _]). cbn [fst snd] in EdgeR, EdgeL.
+        destruct R1 as (x1 & -> & G1 & [_ EdgeR] & C1). destruct R2 as (x2 & -> & G2 & [EdgeL _] & C2). cbn [fst snd] in EdgeR, EdgeL, C1, C2.
         destruct (EdgeR (eq_sym B1)) as (t1 & -> & T1).
         destruct (EdgeL (eq_sym B2)) as (t2 & -> & T2).
-        exists (TBetween t1 t2). split; [reflexivity|]. split; [|split; intros Ee; lia].
-        cbn in G1, G2 |- *. auto.
+        exists (TBetween t1 t2). split; [reflexivity|]. split; [|split; [split; intros Ee; lia|]].
+        * cbn in G1, G2 |- *. auto.
+        * intros t Ht. destruct (tok_in_child p t off Ht Nd) as (i' & c' & Ec' & Ht' & Hh').
+          rewrite Ek in Ec'. pose proof (hit_children_in cs 0%nat (true_off g p) off i' c' Ec') as Hin.
+          cbn [true_off] in Hh'. rewrite Ek in Hh'. specialize (Hin Hh'). rewrite Eh in Hin. cbn [Nat.add] in Hin.
+          cbn [tao_list]. destruct Hin as [Hin|[Hin|[]]]; injection Hin as _ <- _.
+          -- left. destruct (C1 t Ht') as [E1|[]]. exact E1.
+          -- right. left. destruct (C2 t Ht') as [E2|[]]. exact E2.
   Qed.
 
   (* token_at_offset inside its precondition never reaches the unwrap / assert / unreachable!, and
@@ -325,7 +412,7 @@ Section OffsetSpec.
     Inv rs -> Known rs p -> subr g p = Some e -> is_node e = true ->
     true_off g p <= off <= true_off g p + glen e ->
     (glen e = 0 /\ fst (token_at_offset g rs p off) = Ok TNone) \/
-    (0 < glen e /\ exists x, fst (token_at_offset g rs p off) = Ok x /\ TaoGood p off x).
+    (0 < glen e /\ exists x, fst (token_at_offset g rs p off) = Ok x /\ TaoGood p off x /\ Complete p off x).
   Proof.
     intros I K S Nd R. unfold token_at_offset. rewrite S.
     destruct (N.eq_dec (glen e) 0) as [Z|NZ].
@@ -333,7 +420,7 @@ Section OffsetSpec.
       rewrite (offset_known g rs p I K).
       destruct (N.leb_spec (true_off g p) off); [|lia]. destruct (N.leb_spec off (true_off g p + len)); [|lia]. cbn [andb negb].
       subst len. reflexivity.
-    - right. split; [lia|]. destruct (tao_of_spec e p off rs S I K) as (x & Ex & Gx & _); [lia|exact R|].
+    - right. split; [lia|]. destruct (tao_of_spec e p off rs S I K) as (x & Ex & Gx & _ & Cx); [lia|exact R|].
       exists x. auto.
   Qed.
 
